@@ -169,8 +169,12 @@ def _shape_diff(lib, ref, errpaths, path=()):
 
 
 def _via(case):
-    """operator, sub-kind and placement (first three components of each tag) of the mutations applied"""
-    return "+".join(":".join(t.split(":")[:3]) for t in case.get("muts", [])) or "seed"
+    """single mutants: operator, sub-kind and placement (first three components of the tag);
+    pairs: the two operator names only (the pair space is too large for finer classes)"""
+    muts = case.get("muts", [])
+    if len(muts) >= 2:
+        return "+".join(sorted(t.split(":")[0] for t in muts))
+    return "+".join(":".join(t.split(":")[:3]) for t in muts) or "seed"
 
 
 def evaluate(name, case, st, bounds):
